@@ -110,6 +110,7 @@ def make_queries(tier):
                 z3.Implies(z3.Or(bstr.eq(p.e, bstr.lit("..")), bstr.prefixof(bstr.lit("../"), p.e), bstr.suffixof(bstr.lit("/.."), p.e),
                                  bstr.contains(p.e, bstr.lit("/../"))), z3.Not(good)))
         E.prove("an absolute path is rejected", z3.Implies(bstr.prefixof(bstr.lit("/"), p.e), z3.Not(good)))
+        E.prove("the empty path is rejected", z3.Implies(p.e.n == bv(0), z3.Not(good)))
         E.prove("a backslash is rejected", z3.Implies(bstr.contains(p.e, bstr.lit("\\")), z3.Not(good)))
         E.cover("accepted path with a dropped './' and a doubled slash", z3.And(good, bstr.contains(p.e, bstr.lit("//")), bstr.prefixof(bstr.lit("./"), p.e)))
         E.cover("rejected: traversal in the middle", z3.And(z3.Not(good), bstr.contains(p.e, bstr.lit("a/../"))))
@@ -143,6 +144,7 @@ def make_queries(tier):
                 accepted = z3.Bool("sanitizer_accepts!%d" % len(calls))
                 I.side.extend(cons)
                 I.side.append(z3.Implies(accepted, safe_relative(out)))
+                I.side.append(z3.Implies(accepted, arg.e.n != bv(0)))  # contract: the empty path is rejected (decided by q_sanitize_confines)
                 calls.append((pc, arg))
                 return VEnum("Result", z3.If(accepted, TAG("Result", "Ok"), TAG("Result", "Err")), {"Ok": [VStr(out)], "Err": [VUnit()]})
             E.I.overrides["sanitize_archive_path"] = contract
